@@ -233,6 +233,8 @@ def run_spec(draw, optimizer, task=None, config=None, modes=("serial",), max_wor
         spec["mode"] = mode
     if mode != "serial":
         spec["workers"] = draw(st.one_of(st.none(), st.integers(1, max_workers)))
+    if draw(st.integers(0, 24)) == 0:
+        spec["debug"] = True             # the constructor's debug switch (verbose printing) must not change anything
     if warmup > 0 and draw(_f(0.0, 1.0)) < warmup:
         # an earlier optimize() call on the same instance, on a task of another shape / direction / scale
         spec["warmup"] = draw(task_spec(max_dim=5, encodings=("cont_multi", "cont_multi", "mixed", "discrete",
